@@ -342,6 +342,15 @@ func checkC03(c *Ctx) *core.Result {
 
 // tokenSliceOf: v is tokenStart[:tokenLen] of the tokenizer state.
 func tokenSliceOf(a *Anchors, v ssa.Value) bool {
+	// an accessor such as h.token()
+	if call, isCall := v.(*ssa.Call); isCall {
+		if f := call.Common().StaticCallee(); f != nil {
+			if ret, pure := ssax.PureExprFunc(f); pure {
+				return tokenSliceOf(a, ret)
+			}
+		}
+		return false
+	}
 	sl, ok := v.(*ssa.Slice)
 	if !ok || sl.Low != nil && !isZero(sl.Low) || sl.High == nil {
 		return false
@@ -412,7 +421,14 @@ func checkC04(c *Ctx) *core.Result {
 				continue
 			}
 			if isBin && bo.Op == token.EQL {
-				if _, isPhi := bx.(*ssa.Phi); isPhi {
+				_, isPhi := bx.(*ssa.Phi)
+				if ld, isLd := bx.(*ssa.UnOp); isLd && !isPhi {
+					// the attribute kind kept in a field of a local struct
+					if fa, ok := ld.X.(*ssa.FieldAddr); ok {
+						_, isPhi = fa.X.(*ssa.Alloc)
+					}
+				}
+				if isPhi {
 					if k, ok := ssax.ConstInt(bo.Y); ok {
 						if f.True {
 							s.attr, s.hasAt = k, true
@@ -437,6 +453,33 @@ func checkC04(c *Ctx) *core.Result {
 			case isBin:
 				if cs, ok := ssax.ConstString(bo.Y); ok {
 					d = fmt.Sprintf("str %s %q", bo.Op, cs)
+				} else if col, ok := tables.ColumnValues(p, f.Arg(bo.Y)); ok && isStringType(bo.Y.Type()) && len(col) > 0 && len(col) <= 16 {
+					// compared with an entry of a constant table inside a loop over its rows: one test per row
+					all := true
+					var ds []string
+					for _, cv := range col {
+						sv, isS := cv.(string)
+						if !isS {
+							all = false
+							break
+						}
+						ds = append(ds, fmt.Sprintf("str %s %q", bo.Op, sv))
+					}
+					if all {
+						for i, dd := range ds {
+							if !f.True {
+								dd = "!(" + dd + ")"
+							}
+							if i < len(ds)-1 {
+								s.extras = append(s.extras, dd)
+							} else {
+								d = strings.TrimSuffix(strings.TrimPrefix(dd, "!("), ")")
+								if f.True {
+									d = dd
+								}
+							}
+						}
+					}
 				} else if call, ok := bx.(*ssa.Call); ok {
 					if fn := call.Common().StaticCallee(); fn != nil {
 						full := len(call.Common().Args) > 0 && tokenSliceOf(a, f.Arg(call.Common().Args[0]))
@@ -533,8 +576,24 @@ func checkC04(c *Ctx) *core.Result {
 	}
 	// AttrName tokens define the attribute kind from the attribute predicate on the whole token
 	okName := false
+	// (the attribute predicate may be called through a small helper: classifyAttrName(h5))
+	feedsAttrPredicate := func(ci ssa.CallInstruction) bool {
+		callee := ci.Common().StaticCallee()
+		if callee == isAttr {
+			return len(ci.Common().Args) == 1 && tokenSliceOf(a, ci.Common().Args[0])
+		}
+		if callee == nil || !p.InModule(callee) || len(callee.Blocks) > 6 {
+			return false
+		}
+		for _, c2 := range ssax.Calls(callee) {
+			if c2.Common().StaticCallee() == isAttr && len(c2.Common().Args) == 1 && tokenSliceOf(a, c2.Common().Args[0]) {
+				return true
+			}
+		}
+		return false
+	}
 	for _, ci := range ssax.Calls(ctx) {
-		if ci.Common().StaticCallee() == isAttr && len(ci.Common().Args) == 1 && tokenSliceOf(a, ci.Common().Args[0]) {
+		if feedsAttrPredicate(ci) {
 			for _, f := range ssax.Facts(ci.Block()) {
 				if bo, ok := f.Cond.(*ssa.BinOp); ok && f.True && bo.Op == token.EQL && a.loadsField(bo.X, "xss.state.tokenType") {
 					if k, _ := ssax.ConstInt(bo.Y); k == tName {
@@ -585,14 +644,14 @@ func checkC04(c *Ctx) *core.Result {
 
 	// ---- N5: scheme constants reach the matcher
 	schemes := map[string]bool{}
-	for _, b := range isURL.Blocks {
-		for _, ins := range b.Instrs {
-			if st, ok := ins.(*ssa.Store); ok {
-				if cs, ok := ssax.ConstString(st.Val); ok && cs != "" {
-					schemes[cs] = true
-				}
+	if lits, _, why := schemeLiterals(p, isURL, urlMatch); why == "" {
+		for _, l := range lits {
+			if l != "" {
+				schemes[l] = true
 			}
 		}
+	} else {
+		r.Fail("N5", core.QualName(isURL), "scheme list located", p.Pos(isURL.Pos()), why)
 	}
 	for _, want := range []string{"JAVASCRIPT", "VBSCRIPT", "DATA", "VIEW-SOURCE"} {
 		found := ""
